@@ -262,6 +262,33 @@ def _bound_safe(E, hb, e, depth=0):
         fn = norm(hb["path"])
         if (fn, nm) in SLICE_EXCEPTIONS:
             return True, "reviewed: " + SLICE_EXCEPTIONS[(fn, nm)]
+        # a parameter of a private function: the bound is as safe as the argument at every call site
+        r = path_res(e)
+        pidx = None
+        for i, p_ in enumerate(hb.get("params", [])):
+            if p_.get("k") == "PBinding" and r and p_.get("id") == r.get("id") and p_.get("name") == nm:
+                pidx = i
+        it = E.item_by_dp.get(hb["dp"])
+        if pidx is not None and it is not None and it.get("vis") != "Public" and not it.get("parent_kind", "").startswith("Impl { of_trait: true"):
+            sites = []
+            for cn in callers_by_name(E).get(fn, set()):
+                ch = E.hir(cn)
+                if not ch:
+                    return False, "caller %s not analysable" % cn
+                for c in exprs(ch["body"], ("Call", "MethodCall")):
+                    if hb["dp"] in (c.get("resolved_dp"), c.get("callee_dp")):
+                        sites.append((ch, c))
+            if sites:
+                whys = []
+                for ch, c in sites:
+                    args = call_args(c)
+                    if pidx >= len(args):
+                        return False, "call with fewer arguments"
+                    ok, why = _bound_safe(E, ch, args[pidx], depth + 1)
+                    if not ok:
+                        return False, "argument at %s: %s" % (c.get("sp", ""), why)
+                    whys.append(why)
+                return True, "parameter; at every call site: " + "; ".join(sorted(set(whys)))
         # definition of the local
         for st in exprs(body, "SLet"):
             if nm in pat_bindings(st["pat"]) and "init" in st and st["pat"].get("k") == "PBinding":
